@@ -93,6 +93,17 @@ def render_case(case, obs):
             f'mkCase {FACT[case["factory"]]} {edges} {cbool(obs["created"])} {calls})')
 
 
+def load_corpus(pid):
+    """minimised regression cases, always run first"""
+    import glob
+    import os
+    out = []
+    d = os.path.join(os.path.dirname(os.path.dirname(os.path.abspath(__file__))), 'corpus', pid)
+    for f in sorted(glob.glob(os.path.join(d, '*.json'))):
+        out += json.load(open(f))['cases']
+    return out
+
+
 def evaluate(chk, cases, tag='cases', shard=150, hashseed=None):
     """returns (terms, observations, failing indices)"""
     obs = []
